@@ -74,6 +74,9 @@ const OPS: &[OpSpec] = &[
     // grid based (Plain, grids written to the scratch directory)
     o("gridshift grids=g1.datum", "plain", true, "grid"),
     o("gridshift grids=@missing.datum,g1.datum,@null", "plain", true, "grid"),
+    o("gridshift grids=g1sub.datum,g1.datum", "plain", true, "grid"),
+    o("gridshift grids=g1.datum,g1sub.datum", "plain", true, "grid"),
+    o("deformation grids=d1sub.deformation,d1.deformation dt=10", "plain", true, "gridcart"),
     o("gridshift grids=h1.geoid", "plain", true, "grid"),
     o("deformation grids=d1.deformation t_epoch=2000", "plain", true, "gridcart"),
     o("deformation grids=d1.deformation dt=10", "plain", true, "gridcart"),
@@ -81,9 +84,14 @@ const OPS: &[OpSpec] = &[
     o("cart | deformation grids=d1.deformation t_epoch=2000 | cart inv", "plain", false, "grid"),
 ];
 
-const DATUM: &str = "56 54 10 12 1 1\n 1 2  3 -2  5 2\n -1 2  1 7  1 2\n 1 -4  1 2  9 2\n";
-const GEOID: &str = "56 54 10 12 1 1\n 31 32 33\n 34 36 38\n 39 42 45\n";
-const DEFORMATION: &str = "56 54 10 12 1 1\n 1 2 3  4 5 6  7 8 9\n 9 7 5  3 1 -1  -3 -5 -7\n 2 4 8  16 32 64  1 3 9\n";
+const DATUM: &str = "54 56 10 12 1 1\n 1 2  3 -2  5 2\n -1 2  1 7  1 2\n 1 -4  1 2  9 2\n";
+const GEOID: &str = "54 56 10 12 1 1\n 31 32 33\n 34 36 38\n 39 42 45\n";
+const DEFORMATION: &str = "54 56 10 12 1 1\n 1 2 3  4 5 6  7 8 9\n 9 7 5  3 1 -1  -3 -5 -7\n 2 4 8  16 32 64  1 3 9\n";
+
+// a second, smaller, overlapping grid of each kind with different values: in a grid list it takes
+// priority where it covers, whatever the neighbouring tuples were served by
+const DATUM_SUB: &str = "54.5 55.5 10.5 11.5 0.5 0.5\n 11 12  13 -12  15 12\n -11 12  11 17  11 12\n 11 -14  11 12  19 12\n";
+const DEFORMATION_SUB: &str = "54.5 55.5 10.5 11.5 0.5 0.5\n 10 20 30  40 50 60  70 80 90\n 90 70 50  30 10 -10  -30 -50 -70\n 20 40 80  160 320 640  10 30 90\n";
 
 fn setup_scratch(dir: &str) {
     let d = std::path::Path::new(dir);
@@ -93,6 +101,8 @@ fn setup_scratch(dir: &str) {
     std::fs::write(d.join("geodesy/datum/g1.datum"), DATUM).unwrap();
     std::fs::write(d.join("geodesy/geoid/h1.geoid"), GEOID).unwrap();
     std::fs::write(d.join("geodesy/deformation/d1.deformation"), DEFORMATION).unwrap();
+    std::fs::write(d.join("geodesy/datum/g1sub.datum"), DATUM_SUB).unwrap();
+    std::fs::write(d.join("geodesy/deformation/d1sub.deformation"), DEFORMATION_SUB).unwrap();
     std::env::set_current_dir(d).unwrap();
 }
 
@@ -101,7 +111,8 @@ fn pool(kind: &str) -> Vec<Coor4D> {
     match kind {
         "geo" | "deg" | "grid" => {
             let pts: &[(f64, f64)] = if kind == "grid" {
-                &[(11., 55.), (10.5, 54.5), (10., 54.), (12., 56.), (11.25, 55.75), (13., 55.), (11., 57.), (10.2, 55.9)]
+                &[(11., 55.), (10.5, 54.5), (10., 54.), (12., 56.), (11.25, 55.75), (13., 55.), (11., 57.), (10.2, 55.9),
+                  (10.75, 55.25), (11.6, 55.), (11.8, 54.2), (10.3, 55.45)]
             } else {
                 &[(12., 55.), (9., 0.), (-70., -33.), (179.5, 10.), (10., 89.), (8., 47.), (115., 4.), (30., -85.)]
             };
@@ -125,7 +136,8 @@ fn pool(kind: &str) -> Vec<Coor4D> {
             // cartesian-ish
             let e = Ellipsoid::default();
             let pts: &[(f64, f64, f64)] = if kind == "gridcart" {
-                &[(11., 55., 0.), (10.5, 54.5, 100.), (10., 54., 0.), (12., 56., 50.), (13., 55., 0.), (11., 57., 0.)]
+                &[(11., 55., 0.), (10.5, 54.5, 100.), (10., 54., 0.), (12., 56., 50.), (13., 55., 0.), (11., 57., 0.),
+                  (10.75, 55.25, 0.), (11.6, 55., 10.), (11.8, 54.2, 0.), (10.3, 55.45, 0.)]
             } else {
                 &[(12., 55., 0.), (9., 0., 100.), (-70., -33., 2500.), (179.5, 10., 0.), (10., 89., 0.), (30., -85., 9.)]
             };
